@@ -379,8 +379,8 @@ func (x *Exec) step(st *State, fn *ssa.Function, ins ssa.Instruction, top bool) 
 		st.env[ins] = x.convert(st, ins)
 	case *ssa.MakeInterface:
 		xv := x.get(st, ins.X)
-		v := st.fresh(ins.Type(), "ifc")
-		st.assume(fmt.Sprintf("(not (= %s 0))", v.T))
+		idv := st.alloc(types.Typ[types.Bool]) // a fresh identity (allocated during this call)
+		v := Value{K: VIface, T: idv.T, Ty: ins.Type()}
 		st.assume(fmt.Sprintf("(= (dyn_type %s) %s)", v.T, x.typeTag(st, ins.X.Type())))
 		if xv.K < VSlice {
 			st.assume(fmt.Sprintf("(= (%s %s) %s)", ifaceValFn(xv.K), v.T, xv.T))
